@@ -8,7 +8,8 @@ PROP_FILES = ["Prop_C09", "Prop_C09b"]
 RULE = ("PhytoOut transitions (state before/after the call in sub-step 1) of traced in-process runs of generated crop "
         "rotations over every shipped annual main-crop parameter set (SM, SOY + 8 varieties, SW, OA, WW, WG, WR, TR, WRA, K, "
         "ZR + chrnew, LUP), classic and YAML parameter format, CO2 methods 1-3, N supply 0..400 kg/ha, shipped soils incl. "
-        "10/30 cm root limits, weather scenarios historical/extreme rain/drought/frost; days that hit a clamp (organ floor, "
+        "10/30 cm root limits and custom profiles with the root limit at the profile depth, weather scenarios historical/extreme rain/drought/frost/"
+        "sunshine station with missing records/radiation file with missing records (runs of 1, 2, 5 days), automatic sowing windows; days that hit a clamp (organ floor, "
         "LAI zero, REDUK < 1, root limit, uptake caps, fixation, stage advance) are always compared, plain days are sampled; "
         "a case is non-trivial when distinct and inside the growth block; on one emitted day in four the real PhytoOut is replayed on copies "
         "with every other N-content function NGEFKT = 0..9; branch coverage of the root/shoot N update is listed in input_distribution")
@@ -76,7 +77,7 @@ def build_rotation(rnd, crops, start_year):
     return rows
 
 
-def write_project(ex, name, rows, nlevel, rnd):
+def write_project(ex, name, rows, nlevel, rnd, autosow=False):
     """overwrites the ex1 project files of the scratch copy as project <name> (a copy of ex1)"""
     src, dst = os.path.join(ex, "project", "ex1"), os.path.join(ex, "project", name)
     if os.path.isdir(dst):
@@ -100,6 +101,8 @@ def write_project(ex, name, rows, nlevel, rnd):
         td -= 3
         if td < 1:
             tm, td = tm - 1, 26
+        if autosow:
+            tm, td = 3, 1          # before the sowing window opens
         til.append("F1        15 1   %s" % _d(tm, td, ty))
         if nlevel > 0:
             # one dressing in spring of the harvest year (or shortly after sowing for spring crops)
@@ -121,6 +124,16 @@ def write_project(ex, name, rows, nlevel, rnd):
     open(os.path.join(dst, "fert_%s.txt" % name), "w").write("\n".join(fert) + "\n")
     open(os.path.join(dst, "irr_%s.txt" % name), "w").write("Field_ID  Ir N03 date\n          mm mg/l \nend\n")
     write_custom_soils(dst, name)
+    if autosow:
+        # sowing window 1 April .. 31 May, temperature rule with a low temperature-sum threshold: the rule sows in April,
+        # the latest sowing date lies weeks after emergence (fixed columns of automan.txt, see input.go:465-490)
+        rows_a = open(os.path.join(dst, "automan.txt")).read().split("\n")
+        outa = [rows_a[0]]
+        for ln in rows_a[1:]:
+            if len(ln) > 76 and ln[:3].strip() in ("SM", "SOY"):
+                ln = ln[:4] + "0401" + ln[8:9] + "0531" + ln[13:19] + "%-5s" % "6.0" + ln[24:68] + "100" + ln[71:]
+            outa.append(ln)
+        open(os.path.join(dst, "automan.txt"), "w").write("\n".join(outa))
     open(os.path.join(dst, "poly_%s.txt" % name), "w").write("Polyg SID  Field_ID  GH GL Ir comment\n10001 001 F1        99 99 0 c09\nend\n")
     end = rows[-1][3]
     return y0, end
@@ -151,10 +164,10 @@ def write_custom_soils(dst, name):
 def batch_line(name, sp, y0, end):
     custom = sp["soil"] in custom_soil_ids()
     return ("project=%s WeatherFolder=%s soilId=%s fcode=109_120 plotNr=10001 Altitude=73 Latitude=52.6732 poligonID=29872 "
-            "CO2method=%d CropParameterFormat=%s CropFileFormat=csv %sAutoIrrigation=0 AutoFertilization=0 AutoSowingHarvest=0 AutoHarvest=0 "
+            "CO2method=%d CropParameterFormat=%s CropFileFormat=csv %sAutoIrrigation=0 AutoFertilization=0 AutoSowingHarvest=%d AutoHarvest=0 "
             "StartYear=%d ResultFileFormat=0 EndDate=%s resultfolder=R9/%s"
-            % (name, sp["weather"], sp["soil"], sp["co2"], "yml" if sp["yml"] else "txt", "SoilFileExtension=csv " if custom else "",
-               y0, _d(12, 31, end[2]), name))
+            % (name, sp["weather"], sp["soil"], sp["co2"], "yml" if sp["yml"] else "txt", ("SoilFileExtension=csv " if custom else "") + ("WeatherNoneValue=-99.9 " if sp["weather"] in GAP_SCENARIOS else ""),
+               1 if sp.get("autosow") else 0, y0, _d(12, 31, end[2]), name))
 
 
 def weather_scenarios(ex, seed):
@@ -193,23 +206,75 @@ def weather_scenarios(ex, seed):
             open(os.path.join(dst, fn), "w").write("\n".join(out))
 
 
+GAP_SCENARIOS = ("sungaps", "radgaps")
+
+
+def gap_scenarios(ex, seed):
+    """records with MISSING optional values (none value -99.9) in runs of 1, 2 and 5 days, several times per growing season:
+    'sungaps' = a sunshine-recorder station (column sunhours instead of globrad) with missing sunshine records,
+    'radgaps' = the shipped radiation file with missing global radiation and wind records
+    (a missing relative humidity is NOT generated: the reader has no replacement rule for it and the unchanged code then runs on
+    humidity -99.9 into a NaN state - outside what C09 quantifies over, reported to the weather-input properties)"""
+    rnd = random.Random(seed * 13 + 5)
+    src = os.path.join(ex, "weather", "historical")
+    for scen in GAP_SCENARIOS:
+        dst = os.path.join(ex, "weather", scen)
+        if os.path.isdir(dst):
+            continue
+        os.makedirs(dst)
+        for fn in os.listdir(src):
+            if not fn.endswith(".csv"):
+                continue
+            lines = open(os.path.join(src, fn)).read().split("\n")
+            hdr = lines[0].split(",")
+            if "globrad" not in hdr:
+                shutil.copy(os.path.join(src, fn), dst)
+                continue
+            gi = hdr.index("globrad")
+            cols = [gi] if scen == "sungaps" else [gi, hdr.index("wind")]
+            body = [ln.split(",") for ln in lines[2:]]
+            if scen == "sungaps":
+                hdr[gi] = "sunhours"
+                for t in body:
+                    if len(t) > gi:
+                        t[gi] = "%.1f" % min(15.5, float(t[gi]) / 2)
+            # gaps: per year and column about eight runs of 1, 2 or 5 days between March and November
+            i = 0
+            while i < len(body):
+                t = body[i]
+                if len(t) > gi and 3 <= int(t[0][5:7]) <= 11 and rnd.random() < 0.035:
+                    run_len = rnd.choice([1, 2, 2, 5])
+                    col = rnd.choice(cols)
+                    for j in range(i, min(i + run_len, len(body))):
+                        if len(body[j]) > col:
+                            body[j][col] = "-99.9"
+                    i += run_len + 1
+                else:
+                    i += 1
+            second = lines[1].split(",")
+            if scen == "sungaps" and len(second) > gi:
+                second[gi] = "h"
+            open(os.path.join(dst, fn), "w").write("\n".join([",".join(hdr), ",".join(second)] + [",".join(t) for t in body]))
+
+
 def plan(ctx):
     """the traced runs of this tier: [(project name, rotation rows, batch line, yml, tag)]"""
     rnd = random.Random(ctx.seed)
     ex = waterlib.prepare_examples(ctx)
     weather_scenarios(ex, ctx.seed)
+    gap_scenarios(ex, ctx.seed)
     runs = []
-    scen = ["historical", "extreme", "drought", "frost"]
+    scen = ["historical", "extreme", "drought", "frost", "sungaps", "radgaps"]
     nlevels = [0, 60, 150, 400]
 
-    def add(crops, soil, weather, co2, nlevel, yml, start):
+    def add(crops, soil, weather, co2, nlevel, yml, start, autosow=False):
         name = "c9p%d" % len(runs)
         rows = build_rotation(rnd, crops, start)
-        y0, end = write_project(ex, name, rows, nlevel, rnd)
-        tag = "%s|soil=%s|%s|co2=%d|N=%d|%s" % ("+".join(c + (("_" + v) if v else "") for c, v in crops), soil, weather, co2, nlevel,
-                                                 "yml" if yml else "txt")
+        y0, end = write_project(ex, name, rows, nlevel, rnd, autosow)
+        tag = "%s|soil=%s|%s|co2=%d|N=%d|%s%s" % ("+".join(c + (("_" + v) if v else "") for c, v in crops), soil, weather, co2, nlevel,
+                                                   "yml" if yml else "txt", "|autosow" if autosow else "")
         spec = {"crops": [list(c) for c in crops], "soil": soil, "weather": weather, "co2": co2, "nlevel": nlevel,
-                "yml": yml, "start": start, "seed": ctx.seed}
+                "yml": yml, "start": start, "seed": ctx.seed, "autosow": autosow}
         runs.append({"name": name, "rows": rows, "args": batch_line(name, spec, y0, end), "yml": yml, "tag": tag, "end": end, "spec": spec})
 
     if not ctx.thorough:
@@ -226,10 +291,13 @@ def plan(ctx):
         soils = rnd.sample(SOILS_ALL, 6)
         if "003" not in soils:
             soils[rnd.randrange(6)] = "003"      # 10 cm root limit
-        o1, o2 = rnd.randrange(4), rnd.randrange(4)
+        o1, o2 = rnd.randrange(6), rnd.randrange(4)
         for i, crops in enumerate(picks):
-            add(crops, soils[i], scen[(i + o1) % 4], 1 + (i + ctx.seed) % 3, nlevels[(i + o2) % 4],
+            add(crops, soils[i], scen[(i + o1) % 6], 1 + (i + ctx.seed) % 3, nlevels[(i + o2) % 4],
                 (i + ctx.seed) % 2 == 0, 1981 + rnd.randrange(0, 20))
+        # automatic sowing inside a window (temperature rule in April, latest date 31 May): a standing crop must not be sown again
+        add([("SM", ""), ("SOY", rnd.choice(SOY_VARIETIES)), ("SM", "")], rnd.choice(["075", "160", "002"]), "historical", 1 + ctx.seed % 3,
+            150, ctx.seed % 2 == 0, 1981 + rnd.randrange(0, 20), autosow=True)
         # deep-rooting crops on profiles whose root limit is the profile depth (or one / two layers less): historical
         # weather and fertiliser so that the root front reaches the bottom
         deep = DEEP_CROPS[:]
@@ -250,9 +318,12 @@ def plan(ctx):
                     # rotations of three crops: every parameter set once per (repetition, format, CO2 method)
                     for j in range(0, len(pool), 3):
                         crops = pool[j:j + 3]
-                        add(crops, SOILS_ALL[(k + rep) % len(SOILS_ALL)], scen[(k + k // 4 + rep) % 4], co2,
+                        add(crops, SOILS_ALL[(k + rep) % len(SOILS_ALL)], scen[(k + k // 4 + rep) % 6], co2,
                             nlevels[(k // 2 + rep) % 4], yml, 1981 + rnd.randrange(0, 22))
                         k += 1
+        for j in range(6):
+            add([("SM", ""), ("SOY", SOY_VARIETIES[j]), ("SM", ""), ("SOY", SOY_VARIETIES[j + 2])], SOILS_ALL[(3 * j) % len(SOILS_ALL)],
+                ["historical", "drought", "frost"][j % 3], 1 + j % 3, [150, 0][j % 2], j % 2 == 0, 1981 + rnd.randrange(0, 18), autosow=True)
         # every deep-rooting crop on every custom profile (root limit N, N-1, N-2)
         ids = custom_soil_ids()
         for j, sid in enumerate(ids):
@@ -273,9 +344,9 @@ def run(ctx):
     with open(lf, "w") as f:
         for r_ in runs:
             f.write(json.dumps({"args": r_["args"], "yml": r_["yml"], "tag": r_["tag"]}) + "\n")
-    every = 30 if ctx.thorough else 8
+    every = 30 if ctx.thorough else 12
     rc, cases, orc, other, err = waterlib.run_harness(ctx, "c09", ["-work", ex, "-lines", lf, "-seed", str(ctx.seed), "-every", str(every),
-                                                                    "-max-interesting", "8" if ctx.thorough else "10"], timeout=3000)
+                                                                    "-max-interesting", "8" if ctx.thorough else "8"], timeout=3000)
     _plan_cache[key] = (ex, runs, rc, cases, orc, err)
     return _plan_cache[key]
 
@@ -485,8 +556,9 @@ def replay(ctx, r):
         rnd = random.Random(1)
         ex = waterlib.prepare_examples(ctx)
         weather_scenarios(ex, ctx.seed)
+        gap_scenarios(ex, ctx.seed)
         rows = build_rotation(rnd, [tuple(c) for c in sp["crops"]], sp["start"])
-        y0, end = write_project(ex, "rp", rows, sp["nlevel"], rnd)
+        y0, end = write_project(ex, "rp", rows, sp["nlevel"], rnd, sp.get("autosow", False))
         line = batch_line("rp", sp, y0, end)
         lf = os.path.join(ctx.work, "replay_lines.txt")
         open(lf, "w").write(json.dumps({"args": line, "yml": sp["yml"], "tag": "replay"}) + "\n")
